@@ -4,7 +4,7 @@
     positive, nat stay the extracted inductives.  The .ml/.mli files land in
     the directory coqc is started from (/verif/_work/ocaml). *)
 From Coq Require Import Extraction ExtrOcamlBasic.
-From UV Require Import Model.Codec Model.FsProto Model.Backup Proofs.BackupProofs Proofs.CheckProofs Model.ConfigDefs Model.Config Model.ConfigInst Model.Render Model.NlMax Model.NlAuto Model.Region Model.LexC Model.TokDiff Model.ChunkList.
+From UV Require Import Model.Codec Model.FsProto Model.Backup Proofs.BackupProofs Proofs.CheckProofs Model.ConfigDefs Model.Config Model.ConfigInst Model.Render Model.NlMax Model.NlAuto Model.Region Model.LexC Model.TokDiff Model.ChunkList Proofs.ChunkListProofs.
 Extraction Language OCaml.
 Extraction "uvmodel.ml" Codec.run_file Codec.decode_unicode Codec.repo_check_min
   Codec.write_string Codec.write_bom
@@ -17,4 +17,4 @@ Extraction "uvmodel.ml" Codec.run_file Codec.decode_unicode Codec.repo_check_min
   Region.scan_off Region.ends_plain Region.lines Region.nonblank
   LexC.lex
   TokDiff.c04_ok TokDiff.diff_ok TokDiff.balanced
-  ChunkList.cl_run ChunkList.cl_observe.
+  ChunkList.cl_run ChunkList.cl_observe ChunkListProofs.swap_lines_guard.
